@@ -14,17 +14,22 @@ def PC.notStarted : PC → Bool
   | .n1 | .n2 | .n3 | .m0 => true
   | _ => false
 
+/-- the user function is executing -/
+def PC.running : PC → Bool
+  | .m1 | .mp => true
+  | _ => false
+
 structure InvX (s : St) : Prop where
   nstart  : ∀ u, (s.pc u).notStarted = true → s.fstart (s.reg u) = none ∧ s.fend (s.reg u) = none
-  run1    : ∀ u, s.pc u = .m1 → s.fstart (s.reg u) ≠ none ∧ s.fend (s.reg u) = none
-  running : ∀ c, c < s.next → s.fstart c ≠ none → s.fend c = none → s.pc (s.leader c) = .m1 ∧ s.reg (s.leader c) = c
+  run1    : ∀ u, (s.pc u).running = true → s.fstart (s.reg u) ≠ none ∧ s.fend (s.reg u) = none
+  running : ∀ c, c < s.next → s.fstart c ≠ none → s.fend c = none → (s.pc (s.leader c)).running = true ∧ s.reg (s.leader c) = c
   tstart  : ∀ c a, s.fstart c = some a → a < s.now ∧ c < s.next
   tend    : ∀ c b, s.fend c = some b → b < s.now ∧ endsBefore (s.fstart c) b ∧ s.fstart c ≠ none
   disj    : ∀ c d a a', c ≠ d → s.ekey c = s.ekey d → s.fstart c = some a → s.fstart d = some a' →
               endsBefore (s.fend c) a' ∨ endsBefore (s.fend d) a
 
 theorem invX_init : InvX init := by
-  constructor <;> simp [init, PC.notStarted]
+  constructor <;> simp [init, PC.notStarted, PC.running]
 
 theorem flight_unique (h : Inv s) (u v : Tid) (hu : (s.pc u).inFlight = true) (hv : (s.pc v).inFlight = true)
     (hk : s.key u = s.key v) : u = v := by
@@ -39,7 +44,7 @@ theorem flight_unique (h : Inv s) (u v : Tid) (hu : (s.pc u).inFlight = true) (h
 
 macro "close_stepx" hs:ident : tactic =>
   `(tactic| (step_cases $hs:ident <;>
-      simp [upd, PC.owns, PC.notStarted] at * <;> grind [endsBefore_none, endsBefore_some]))
+      simp [upd, PC.owns, PC.notStarted, PC.running] at * <;> grind [endsBefore_none, endsBefore_some]))
 
 variable {s s' : St} {t : Tid} {x : Nat}
 
@@ -53,7 +58,7 @@ theorem nstart_step (h : Inv s) (hx : InvX s) (hs : step s t x = some s') :
   close_stepx hs
 
 theorem run1_step (h : Inv s) (hx : InvX s) (hs : step s t x = some s') :
-    ∀ u, s'.pc u = .m1 → s'.fstart (s'.reg u) ≠ none ∧ s'.fend (s'.reg u) = none := by
+    ∀ u, (s'.pc u).running = true → s'.fstart (s'.reg u) ≠ none ∧ s'.fend (s'.reg u) = none := by
   intro u hu
   have h1 := hx.run1 u
   have h2 := hx.nstart t
@@ -62,7 +67,7 @@ theorem run1_step (h : Inv s) (hx : InvX s) (hs : step s t x = some s') :
   close_stepx hs
 
 theorem running_step (h : Inv s) (hx : InvX s) (hs : step s t x = some s') :
-    ∀ c, c < s'.next → s'.fstart c ≠ none → s'.fend c = none → s'.pc (s'.leader c) = .m1 ∧ s'.reg (s'.leader c) = c := by
+    ∀ c, c < s'.next → s'.fstart c ≠ none → s'.fend c = none → (s'.pc (s'.leader c)).running = true ∧ s'.reg (s'.leader c) = c := by
   intro c hc h1 h2
   have h3 := hx.running c
   have h4 := h.owns t
@@ -108,12 +113,12 @@ theorem disj_step (h : Inv s) (hx : InvX s) (hs : step s t x = some s') :
       exfalso
       obtain ⟨r1, r2⟩ := hx.running e he hst hfe
       have ot := h.owns t (by simp [hpc, PC.owns])
-      have ol := h.owns (s.leader e) (by simp [r1, PC.owns])
-      have : s.leader e = t := flight_unique h _ _ (by simp [r1, PC.inFlight]) (by simp [hpc, PC.inFlight])
-        (by rw [← ol.2.2.1, r2, hke, ot.2.2.1])
+      have ol := h.owns (s.leader e) (by revert r1; cases s.pc (s.leader e) <;> simp [PC.running, PC.owns])
+      have : s.leader e = t := flight_unique h _ _ (by revert r1; cases s.pc (s.leader e) <;> simp [PC.running, PC.inFlight])
+        (by simp [hpc, PC.inFlight]) (by rw [← ol.2.2.1, r2, hke, ot.2.2.1])
       rw [this] at r1
       rw [hpc] at r1
-      cases r1
+      simp [PC.running] at r1
   have k1 := key c
   have k2 := key d
   have h5 := hx.tend c
